@@ -189,7 +189,8 @@ fn serve_inner<
         // let hyper set it.
         let d = SystemTime::now();
         res = res.header(header::DATE, fmt_http_date(d));
-        let clamped_m = std::cmp::min(m, d);
+        // ...and a time before 1970 has no HTTP date `httpdate` can print: send the epoch then.
+        let clamped_m = std::cmp::max(std::cmp::min(m, d), SystemTime::UNIX_EPOCH);
         res = res.header(header::LAST_MODIFIED, fmt_http_date(clamped_m));
     }
     if let Some(e) = etag {
